@@ -840,6 +840,31 @@ def parseWith (c : Ctx) (fuel : Nat) : Out :=
       | .ok (some (.tok _ sp)) s => .error ⟨.failedToParseEntireInput, sp, none⟩ s.rspans.reverse
       | .ok (some (.invalid sp)) s => .error ⟨.failedToParseEntireInput, sp, none⟩ s.rspans.reverse
 
+/-- `Parser::signature` (src/parser/signature.rs): `fn[T, …](type, …) -> type` -/
+def signature (c : Ctx) (n : Nat) (s : PState) : PR Sx :=
+  (take c (kw "Fn") s).bind fun _ s =>
+    (typeParameters c n s).bind fun k s =>
+      (separated c (typeExpr c n) (pu "RoundLeft") (pu "RoundRight") (pu "Comma") n s).bind fun ps s =>
+        (nextIs c (pu "Arrow") s).bind fun b s =>
+          (if b then (typeExpr c n s).bind fun t s => .ok [sx "Ret" [t.sx]] s else .ok [] s).bind fun ret s =>
+            .ok (sx "Signature" (num k :: sx "Params" ps.sx.kids :: ret)) s
+
+/-- `Parser::parse_signature` = `run_parser(Self::signature, 0, …)`: no shebang
+is skipped (that is `tree`'s business); the rest is `run_parser` as in `parseWith` -/
+def parseSignatureWith (c : Ctx) (fuel : Nat) : Out :=
+  match signature c fuel ⟨Lexer.new c.src, [], [], none⟩ with
+  | .panic => .panic
+  | .fuel => .fuel
+  | .err e s => .error { e with hint := s.almost } s.rspans.reverse
+  | .ok t s =>
+    match lexNext c s with
+    | .panic => .panic
+    | .fuel => .fuel
+    | .err e s => .error e s.rspans.reverse
+    | .ok none s => .tree t s.rspans.reverse
+    | .ok (some (.tok _ sp)) s => .error ⟨.failedToParseEntireInput, sp, none⟩ s.rspans.reverse
+    | .ok (some (.invalid sp)) s => .error ⟨.failedToParseEntireInput, sp, none⟩ s.rspans.reverse
+
 /-- fuel per byte of input (+ the queue): every cycle of calls that does not
 consume a token is shorter than this -/
 def fuelPerByte : Nat := 32
@@ -849,5 +874,8 @@ def parseFuel (src : List Char) : Nat := fuelPerByte * (blen src + 2)
 
 /-- `Parser::parse` -/
 def parse (c : Ctx) : Out := parseWith c (parseFuel c.src)
+
+/-- `Parser::parse_signature` -/
+def parseSignature (c : Ctx) : Out := parseSignatureWith c (parseFuel c.src)
 
 end RotoV.Parse
